@@ -30,6 +30,25 @@ SCANS = {
         'patterns': [r'\bSDS\s*::\s*(Inline|Heap)\b'],
         'any_receiver': True,
     },
+    # TYPE INVARIANTS.  A representation invariant that a unit states as pre- and postcondition of a type's methods holds for
+    # every value of the type in the program - so callers (and the other units' contract-only stubs) need not demand it - iff
+    # (1) the fields are private to the defining file (Rust privacy then confines construction and mutation to that file), and
+    # (2) EVERY function of the defining file that can create or change a value of the type (a `&mut self` / `self` method, a
+    # function returning Self or the type, in inherent and trait impls alike) is verified in one of the named units with the
+    # invariant among its postconditions.  Each violation of (1) or (2) is a site.  Derived impls (Clone, Default) have no body:
+    # they are listed as assumed.
+    'zset_type_invariant': {
+        'kind': 'type_invariant', 'owner': 'src/redis/data/sorted_set.rs', 'type': 'RedisSortedSet', 'inv': r'\binv\(\)',
+        'units': ['zset_container', 'sds_ops'],
+        'what': 'RedisSortedSet.inv() (map and skip list hold the same members with the same, non-NaN scores) as a type invariant: private fields, every creating / mutating function of sorted_set.rs verified with inv() among its postconditions',
+    },
+    'sds_type_invariant': {
+        'kind': 'type_invariant', 'owner': 'src/redis/data/sds.rs', 'type': 'SDS', 'inv': r'\bsds_wf\(',
+        'units': ['sds_codec', 'sds_ops'], 'enum_ok': True,
+        # a trait-impl method takes its contract from the trait-level spec (Verus allows no ensures on the impl method)
+        'via': {'<SDS as Deserialize>::deserialize': r'fn\s+de_ok\b[^}]*sds_wf\('},
+        'what': 'sds_wf (an Inline value holds at most 23 bytes) as a type invariant of SDS: every creating / mutating function of sds.rs verified with sds_wf among its postconditions (the variants of the enum are public: scan sds_encapsulation shows nothing outside sds.rs names them)',
+    },
 }
 
 
@@ -46,6 +65,8 @@ def _strip_tests(text, m):
 
 def run_scan(repo, name):
     sc = SCANS[name]
+    if sc.get('kind') == 'type_invariant':
+        return _run_type_invariant(repo, name, sc)
     sites = []
     nfiles = 0
     for root, dirs, files in os.walk(os.path.join(repo, 'src')):
@@ -76,3 +97,78 @@ def run_scan(repo, name):
     for s in sites:
         uniq[(s['file'], s['line'])] = s
     return {'name': name, 'what': sc['what'], 'files_scanned': nfiles, 'sites': sorted(uniq.values(), key=lambda s: (s['file'], s['line']))}
+
+
+def _run_type_invariant(repo, name, sc):
+    """See the comment at SCANS['zset_type_invariant']."""
+    from .gen import Unit, GenError
+    from .run import scan_fns, VERIF
+    sites = []
+    path = os.path.join(repo, sc['owner'])
+    text = open(path, encoding='utf-8', errors='replace').read()
+    m = _strip_tests(text, rs.mask(text))
+    ty = sc['type']
+    # (1) private fields
+    decl = None
+    for it in rs.items(text, m):
+        if it.kind in ('struct', 'enum') and it.name == ty:
+            decl = it
+    if decl is None:
+        return {'name': name, 'what': sc['what'], 'files_scanned': 0, 'sites': [], 'note': 'type not found'}
+    if decl.kind == 'struct' and decl.body_open >= 0:
+        body = m[decl.body_open + 1:decl.end - 1]
+        for mm in re.finditer(r'(^|[,{\n])\s*(pub(\s*\([^)]*\))?)\s+(\w+)\s*:', body):
+            line = text.count('\n', 0, decl.body_open + 1 + mm.start(2)) + 1
+            sites.append({'file': sc['owner'], 'line': line, 'text': 'field `%s` of %s is not private to the defining file' % (mm.group(4), ty)})
+    elif decl.kind == 'enum' and not sc.get('enum_ok'):
+        sites.append({'file': sc['owner'], 'line': text.count('\n', 0, decl.start) + 1, 'text': 'enum variants are public'})
+    # verified functions of the proving units, with their contract text
+    verified = {}
+    for u in sc['units']:
+        try:
+            un = Unit(VERIF, repo, u, ()).generate()
+            gtext, _sp = un.render()
+        except (GenError, rs.ScanError) as e:
+            return {'name': name, 'what': sc['what'], 'files_scanned': 0, 'sites': [], 'note': 'unit %s could not be generated: %s' % (u, str(e)[:120])}
+        ids = set(f['id'] for f in un.functions if f['file'] == sc['owner'])
+        fns, _gm = scan_fns(gtext)
+        for q, pat in sc.get('via', {}).items():
+            if q in ids and re.search(pat, gtext, flags=re.S):
+                verified.setdefault(q, []).append(re.search(pat, gtext, flags=re.S).group(0))
+        for f in fns:
+            if f['qual'] in ids or f['qual_short'] in ids:
+                hdr = gtext[f['start']:(f['body_open'] if f['body_open'] >= 0 else f['end'])]
+                k = hdr.find('ensures')
+                verified.setdefault(f['qual_short'], []).append(hdr[k:] if k >= 0 else '')
+    # (2) every creating / mutating function of the defining file
+    derived = []
+    for mm in re.finditer(r'#\s*\[\s*derive\s*\(([^)]*)\)\s*\]', m[max(0, decl.start - 200):decl.decl + 1]):
+        derived += [d.strip() for d in mm.group(1).split(',') if d.strip() in ('Clone', 'Default')]
+    checked = 0
+
+    def walk(lo, hi, prefix):
+        nonlocal checked
+        for it in rs.items(text, m, lo, hi):
+            if it.kind == 'impl' and it.body_open >= 0 and it.name == ty:
+                q = ('<%s as %s>::' % (ty, it.trait)) if it.trait else ty + '::'
+                walk(it.body_open + 1, it.end - 1, q)
+            elif it.kind == 'fn' and prefix:
+                if any('debug_assertions' in c and 'not' not in c for c in (it.cfgs or [])):
+                    continue
+                parts = rs.fn_parts(text, m, it)
+                params = m[parts[1] + 1:parts[2]]
+                ret = m[parts[4]:parts[5]] if parts[3] >= 0 else ''
+                mutates = re.search(r'&\s*(\'\w+\s+)?mut\s+self\b', params) or re.match(r'\s*(mut\s+)?self\b', params)
+                creates = re.search(r'\b(Self|%s)\b' % re.escape(ty), ret) is not None
+                if not (mutates or creates):
+                    continue
+                checked += 1
+                q = prefix + it.name
+                line = text.count('\n', 0, it.decl) + 1
+                if q not in verified:
+                    sites.append({'file': sc['owner'], 'line': line, 'text': '%s can create or change a %s and is not verified in %s' % (q, ty, ' / '.join(sc['units']))})
+                elif not any(re.search(sc['inv'], e) for e in verified[q]):
+                    sites.append({'file': sc['owner'], 'line': line, 'text': '%s is verified but its postcondition does not re-establish the invariant' % q})
+    walk(0, len(text), '')
+    return {'name': name, 'what': sc['what'], 'files_scanned': 1 if checked else 0, 'functions_checked': checked,
+            'assumed_derived_impls': sorted(set(derived)), 'sites': sites}
